@@ -8,6 +8,8 @@ from typing import List
 from harness.lib.core import VERIF, Ctx, lean_lock, run_driver, shrink_ops
 from harness.extract import database as x_db
 from harness.extract import database_tr as x_tr
+from harness.extract import database_ftp_tr as x_ftp
+from harness.extract import database_client_tr as x_cli
 from harness.rigs import database as rig
 
 MANIFEST = {
@@ -34,20 +36,37 @@ MANIFEST = {
             "service (refused / raises / replaces the instance: empty table, default limit, new uuid) and the FTP client at run time, "
             "FTP-client restart / fix / scan with their countdowns, payloads the dispatcher does not recognise (answered 500), a "
             "co-located client's own calls; shut-down duration 0; backup_server_ip None; a co-located client owning port 5432; a "
-            "saturated link as an adversarial input; DataManipulationBot / RansomwareScript. Tie: regenerated tables (Gen/Database.lean, "
-            "C17_gen_*), the translated functions, and differential rig R-db on real client/server/backup hosts behind a router.",
+            "saturated link as an adversarial input; DataManipulationBot / RansomwareScript. ROUND 4: (5) a tick backs up / restores only "
+            "if the service can act: a FIXING countdown that ends while the service is stopped / paused / disabled / restarting (or its "
+            "node is not ON) makes the health GOOD and does NOT fetch the backup, for every lifecycle state x countdown "
+            "(C17_tick_restores_only_if_running), and along every sequence of ticks and client traffic a halted service never "
+            "restores (C17_halted_service_never_restores_run); helpers shared by backup_database / restore_backup are inlined by the "
+            "translator. (6) the FTP layer the two transfers use - FTPClient.send_file / request_file / _connect_to_server / "
+            "_disconnect_from_server / receive, FTPServer.receive / _process_ftp_command, FTPServiceABC._store_data / _send_data / "
+            "_retrieve_data / _process_ftp_command / send, IOSoftware.send, on both hosts - is translated (Gen/DatabaseFtpTr.lean) and "
+            "PROVED EQUAL to the model's ftpSendFile / ftpRequestFile (C17_tr_ftp_*); only the delivery of a frame between the hosts is "
+            "stated. (7) the client's decision logic (DatabaseClient.receive, the re-attempt halves of _connect / _query, the handle "
+            "guards, _disconnect, get_new_connection / query / check_connection / execute) is translated (Gen/DatabaseClientTr.lean) and "
+            "tied to the model; along every run every DatabaseClientConnection carries an id the server issued to its OWN host, so a "
+            "query is sent only over such an id (C17_client_queries_own_connection). (8) file-system REQUESTS on database/ and "
+            "downloads/ (deleted copies modelled, restore of a deleted copy), re-install with non-default fixing duration / starting "
+            "health, compromise on the FTP client; what happens to the stored backup when it is deleted or the service re-installed "
+            "(orphans, C17_no_backup_stays_none_run). Tie: regenerated tables (Gen/Database.lean, C17_gen_*), the translated functions "
+            "(39 method instances, one obligation each), and differential rig R-db on real client/server/backup hosts behind a router.",
     "note": "C17-specific: the network between hosts is abstracted to per-direction reachability flags (validated by the rig "
             "with real ACL rules, NIC state and node power); the FTP transfers are modelled as far as the database uses them "
-            "(`ftpSendFile` / `ftpRequestFile`, hand-written, validated by the rig; the database service's logic around them is "
-            "translated); link LOAD ACCOUNTING is C18's: here a link refusing the file-transfer frame is an input of the model "
+            "(`ftpSendFile` / `ftpRequestFile`: since round 4 proved equal to the translated FTP code; what stays hand-written is "
+            "the delivery of a frame from one host to the other and the file-system primitives get / create / set-health); "
+            "link LOAD ACCOUNTING is C18's: here a link refusing the file-transfer frame is an input of the model "
             "(all values covered by the theorems) whose actual value the rig observes on the real links; the outcomes of the "
             "bot's Bernoulli trials are inputs of the model as well (the rig predicts them from the seed of Python's `random` "
             "and checks the draws the real code made); the file-system request surface (C15) is out of scope.",
     "technique": "Lean 4 theorems over an executable client/server/backup model; tied by regenerated tables, statement-by-statement "
-                 "translation of seven methods, and a differential rig",
+                 "translation of the server-side, FTP and client-side methods, and a differential rig",
     "design_ref": "5/C17",
 }
-MODULES = ["PrimaiteModel.Props.C17", "PrimaiteModel.Props.C17Run", "PrimaiteModel.Props.C17Recv", "PrimaiteModel.Lemmas.DatabaseReach"]
+MODULES = ["PrimaiteModel.Props.C17", "PrimaiteModel.Props.C17Gen", "PrimaiteModel.Props.C17Run", "PrimaiteModel.Props.C17Recv", "PrimaiteModel.Props.C17Ftp",
+           "PrimaiteModel.Props.C17Client", "PrimaiteModel.Lemmas.DatabaseReach"]
 EXE = "drv_c17"
 
 
@@ -80,7 +99,7 @@ def _transfer_branch(op: str, prev_digest: str, blocks: dict) -> str:
     """Which branch of backup_database / restore_backup an op exercised (for the evidence histogram only)."""
     parts = prev_digest.split()
     srv = parts[0][4:].split(",")
-    bk = parts[1][3:].split(",")
+    bk = parts[1][3:].split(",")[:3]
     s_on = srv[0] == "ON" and srv[1] == "RUNNING"
     bk_ok = bk[0] == "ON" and bk[1] == "RUNNING"
     if not s_on:
@@ -110,6 +129,16 @@ def run(ctx: Ctx):
     with lean_lock():
         ctx.extract(x_db.GEN_NAME, x_db.emit)
         ctx.extract(x_tr.GEN_NAME, x_tr.emit)
+        for fname, *_ in x_tr.FUNCS:   # one obligation per translated method: an untranslatable one does not hide the others
+            ctx.oblige(f"translate:{fname}", "extractor", fname not in x_tr.FAILED, x_tr.FAILED.get(fname, ""))
+        ctx.extract(x_ftp.GEN_NAME, x_ftp.emit)
+        for fname, why in sorted(x_ftp.FAILED.items()):
+            ctx.oblige(f"translate-ftp:{fname}", "extractor", False, why)
+        ctx.oblige("translate-ftp:all-22-methods", "extractor", not x_ftp.FAILED, "; ".join(sorted(x_ftp.FAILED)))
+        ctx.extract(x_cli.GEN_NAME, x_cli.emit)
+        for fname, why in sorted(x_cli.FAILED.items()):
+            ctx.oblige(f"translate-client:{fname}", "extractor", False, why)
+        ctx.oblige("translate-client:all-10-functions", "extractor", not x_cli.FAILED, "; ".join(sorted(x_cli.FAILED)))
         ctx.prove(MODULES, exes=[EXE], clean=False, leanchecker=ctx.thorough)
     ctx.cov["rule"] = ("case = (number of clients 1..4, session limit, passwords, durations, ransomware presence, op sequence over "
                        "connect / handle+raw+native query / disconnect / forged+foreign ids / execute / uninstall+install / "
@@ -142,6 +171,10 @@ def run(ctx: Ctx):
         case, impl = rig.gen_cycles_and_run(rng2)
         cases.append((f"cycles:{k}", case))
         pre[f"cycles:{k}"] = impl
+    for k in range(ctx.scale(50, 500)):
+        case, impl = rig.gen_fixrace_and_run(rng2)
+        cases.append((f"fixrace:{k}", case))
+        pre[f"fixrace:{k}"] = impl
     impl_all, lines_all, bounds = [], [], []
     for name, case in cases:
         impl = pre[name] if name in pre else rig.run_impl(case)
@@ -170,6 +203,8 @@ def run(ctx: Ctx):
         blocks = {}
         prev = ""
         maxnow = case["max"]
+        for halt, j, c in case.get("fixrace", []):
+            ctx.count(f"fixrace:halt={halt}:after-{j}-of-{c}-ticks")
         for op in case["ops"]:
             if op[0] == "dmp":
                 ctx.count(f"dmp:p_scan={op[4] / 1000}:predicted-scan={int(op[7])}")
@@ -190,6 +225,8 @@ def run(ctx: Ctx):
                 ctx.count("co:reply-loop(the real call does not return; explicit outcome, trace ends)")
             if w[0] in ("dl", "co", "rj"):
                 ctx.count(f"op:{w[0]}:{w[-1] if w[0] != 'dl' else w[1]}")
+            if w[0] == "fsr":
+                ctx.count(f"op:fsr:{w[1]}:{w[2]}")
             if w[0] == "svcin":
                 ctx.count("result:svcin:" + ("raised" if "rej=R" in m else "refused" if "rej=1" in m else "replaced") + (":configured" if len(w) > 1 else ":bare"))
                 if "rej=0" in m:
